@@ -23,6 +23,7 @@ import time
 ROOT = os.environ.get("VERIF_ROOT", "/verif")
 COQ = os.path.join(ROOT, "coq")
 BUILD = os.path.join(ROOT, "build")
+REPO = os.environ.get("VERIF_REPO", "/repo")
 
 sys.path.insert(0, os.path.join(ROOT, "tools"))
 from props import PROPS, COMMON_TRUSTED  # noqa: E402
@@ -138,7 +139,8 @@ def build_all():
     lock = open(os.path.join(BUILD, ".lock"), "w")
     fcntl.flock(lock, fcntl.LOCK_EX)
     try:
-        st, out = sh("cp /repo/go.sum go.sum 2>/dev/null; go build -tags verif -o %s/vh ." % BUILD, cwd=os.path.join(ROOT, "harness"), timeout=900)
+        st, out = sh("cp %s/go.sum go.sum 2>/dev/null; go mod edit -replace github.com/tormoder/fit=%s && go build -tags verif -o %s/vh ." % (REPO, REPO, BUILD),
+                     cwd=os.path.join(ROOT, "harness"), timeout=900)
         b.harness_ok = st == 0
         if st != 0:
             b.note("harness build failed:\n" + out[-4000:])
